@@ -4,11 +4,13 @@
    match the scan reports covers a stretch of word pieces of the text whose lower-cased words are
    the stored word sequence of a name, and a name is stored under the lower-cased words of a key or
    alias that was added; (3) every token of Trie.tokenize carries the slice of the text between its
-   positions. The remaining link - that the tokens after overlap filtering cover every word exactly
-   once, so that the concatenation of their words is the whole input - is decided by the word
-   accounting oracle and the correspondence on every case. *)
+   positions; (4) the tokens of Trie.tokenize are in text order, disjoint, start and end on piece
+   boundaries, and every non-blank piece of the text lies inside exactly one of them - so no word is
+   dropped or duplicated by the matcher. The remaining link - from the token list of the matcher
+   through unknown-run merging and WITH grouping to the statement about the words of the keys - is
+   decided by the word accounting oracle and the correspondence on every case. *)
 Require Import Model.Base Model.Expr Model.Split Model.Trie Model.Overlap Model.LicTok Model.BoolParse.
-Require Import Proofs.ParseLits Proofs.Trie Proofs.Overlap.
+Require Import Proofs.ParseLits Proofs.Trie Proofs.Overlap Proofs.Cover.
 
 Theorem C01_literals_are_the_license_tokens : forall ts e, bparse ts = POk e -> literals e = tok_atoms ts.
 Proof. exact bparse_literals. Qed.
@@ -32,3 +34,15 @@ Theorem C01_token_is_slice : forall V O (tr : trie V) text t,
   In t (t_tokenize O tr text) -> tstring t = slice text (tstart t) (tend t).
 Proof. intros V O. exact (@tokenize_slices V O). Qed.
 Print Assumptions C01_token_is_slice.
+
+Theorem C01_every_word_in_exactly_one_token : forall V O (tr : trie V), wf_trie tr -> forall text p,
+  In p (pieces O text) -> is_word_piece O p = true ->
+  exists pre t post, t_tokenize O tr text = pre ++ t :: post /\ covers t p /\
+                     (forall t', In t' (pre ++ post) -> ~ covers t' p).
+Proof. intros V O. exact (@tokenize_covers_once V O). Qed.
+Print Assumptions C01_every_word_in_exactly_one_token.
+
+Theorem C01_tokens_in_text_order : forall V O (tr : trie V), wf_trie tr -> forall text,
+  chain_after (t_tokenize O tr text).
+Proof. intros V O. exact (@tokenize_ordered_disjoint V O). Qed.
+Print Assumptions C01_tokens_in_text_order.
